@@ -360,8 +360,12 @@ def run_isospin(chk, n_cfg, r, stream="apply_isospin"):
                 except Exception:
                     continue
                 before = [[float(k.partons.get(p, 0.0)) for p in BASIS] for k in full]
-                Z, A = float(comb.target["Z"]), float(comb.target["A"])
-                Combiner.apply_isospin(full, Z, A)
+                try:
+                    Z, A = float(comb.target["Z"]), float(comb.target["A"])
+                    Combiner.apply_isospin(full, Z, A)
+                except Exception as e:  # the function the model describes is gone / changed its interface
+                    chk.corr_case(stream, False, None, dict(obs=name, error=f"Combiner.apply_isospin: {type(e).__name__}: {e}"[:200]), "py-error")
+                    continue
                 after = [[float(k.partons.get(p, 0.0)) for p in BASIS] for k in full]
                 shared = len({id(k.partons) for k in full}) < len(full)
                 for b, a in list(zip(before, after))[:6]:
